@@ -307,7 +307,7 @@ package clickhouse_planner
 //@ spec fn mShape(c sql.SQLCondition, name string) bool = typeis(c, "*sql.LogicalOp") && unbox(c, "*sql.LogicalOp").fn == "and" && len(unbox(c, "*sql.LogicalOp").clauses) == 2 && typeis(unbox(c, "*sql.LogicalOp").clauses[0], "*sql.LogicalOp") && typeis(unbox(c, "*sql.LogicalOp").clauses[1], "*sql.LogicalOp") && smKey(c).fn == "==" && typeis(smKey(c).clauses[0], "*sql.RawObject") && unbox(smKey(c).clauses[0], "*sql.RawObject").val == "key" && typeis(smKey(c).clauses[1], "*sql.StringVal") && unbox(smKey(c).clauses[1], "*sql.StringVal").val == name
 //@ spec fn mLiteral(c sql.SQLCondition, op string, v string) bool = smVal(c).fn == op && typeis(smVal(c).clauses[0], "*sql.RawObject") && unbox(smVal(c).clauses[0], "*sql.RawObject").val == "val" && typeis(smVal(c).clauses[1], "*sql.StringVal") && unbox(smVal(c).clauses[1], "*sql.StringVal").val == v
 //@ spec fn mRegex(c sql.SQLCondition, want int64, v string) bool = smVal(c).fn == "==" && typeis(smVal(c).clauses[0], "*sqlMatch") && unbox(smVal(c).clauses[0], "*sqlMatch").pattern == v && typeis(smVal(c).clauses[1], "*sql.IntVal") && unbox(smVal(c).clauses[1], "*sql.IntVal").val == want
-//@ func (*StreamSelectPlanner).Process [C07,C13]
+//@ func (*StreamSelectPlanner).Process [C07,C13,C17]
 //@   flag checks=-index,-assert
 //@   at sql_select.Ge lower-date-covers-window-start: isDateCol(arg0) ==> fmtDay <= fdiv(ctx.From.UnixNano(), 86400000000000)
 //@   loop 1:
